@@ -168,13 +168,19 @@ func init() {
 		"(*net/http.Request).Context":         noEffect,
 		// upload objects: a tee writer remembers what it writes to; the hash of a digester is a function of the digester
 		"io.MultiWriter": effMultiWriter,
-		"github.com/opencontainers/go-digest.Digester.Hash": effDigesterHash,
-		"github.com/opencontainers/go-digest.Digester.Digest": effDigesterDigest,
-		"(github.com/opencontainers/go-digest.Algorithm).Digester": effNewDigester,
+		"github.com/opencontainers/go-digest.Digester.Hash":          effDigesterHash,
+		"(github.com/opencontainers/go-digest.Algorithm).FromBytes":  effFromBytes,
+		"(github.com/opencontainers/go-digest.Algorithm).FromString": effFromBytes,
+		"github.com/opencontainers/go-digest.FromBytes":              effFromBytes,
+		"github.com/opencontainers/go-digest.Digester.Digest":        effDigesterDigest,
+		"(github.com/opencontainers/go-digest.Algorithm).Digester":   effNewDigester,
+		"os.Chtimes": effChtimes,
 		// paths (C16)
 		"path/filepath.Join": effPathJoin,
 		"os.CreateTemp":      effCreateTemp,
-		"(*os.File).Name":    func(fe *FnEnc, st *State, c *ssa.Function, a []RV, p token.Pos) []RV { return one(fileName(fe, fe.val(a[0]))) },
+		"(*os.File).Name": func(fe *FnEnc, st *State, c *ssa.Function, a []RV, p token.Pos) []RV {
+			return one(fileName(fe, fe.val(a[0])))
+		},
 		"io/fs.DirEntry.Name": effDirEntryName,
 		// command line flags: registration stores the default through the pointer and records the
 		// target of the flag name in the ghost registry FLAGS (C19 wiring)
@@ -289,8 +295,9 @@ func effSortStrings(fe *FnEnc, st *State, callee *ssa.Function, args []RV, pos t
 	// permutation: new[p] = old[perm[p]], perm is a bijection of the window (inv is its inverse)
 	fe.emit(fmt.Sprintf("(assert (forall ((p Int)) (! (=> %s (and %s (= (select %s p) (select %s (select %s p))) (= (select %s (select %s p)) p))) :pattern ((select %s p)) :pattern ((select %s p)))))",
 		in("p"), in("(select "+perm.S+" p)"), nr.S, old.S, perm.S, inv.S, perm.S, nr.S, perm.S))
-	fe.emit(fmt.Sprintf("(assert (forall ((p Int)) (! (=> %s (and %s (= (select %s (select %s p)) p))) :pattern ((select %s p)))))",
-		in("p"), in("(select "+inv.S+" p)"), perm.S, inv.S, inv.S))
+	// (also triggered by a read of the old row: where did that element go?)
+	fe.emit(fmt.Sprintf("(assert (forall ((p Int)) (! (=> %s (and %s (= (select %s (select %s p)) p) (= (select %s (select %s p)) (select %s p)))) :pattern ((select %s p)) :pattern ((select %s p)))))",
+		in("p"), in("(select "+inv.S+" p)"), perm.S, inv.S, nr.S, inv.S, old.S, inv.S, old.S))
 	// sorted
 	fe.emit(fmt.Sprintf("(assert (forall ((p Int) (r Int)) (! (=> (and %s %s (< p r)) (<= (strord (select %s p)) (strord (select %s r)))) :pattern ((select %s p) (select %s r)))))",
 		in("p"), in("r"), nr.S, nr.S, nr.S, nr.S))
@@ -574,6 +581,7 @@ const bcWritten = "M.BlobCreator.written"
 // io.Copy(dst, src): when dst is an upload session this is its Write (ghost call counter); a failure is a fault
 // (errors while reading the request body are not modelled as client errors)
 func effIOCopy(fe *FnEnc, st *State, callee *ssa.Function, args []RV, pos token.Pos) []RV {
+	bumpFeeds(fe, st)
 	srt := arrSort(sInt, sInt)
 	h := fe.getComp(st, bcWritten, srt)
 	k := ifVal(fe.val(args[0]))
@@ -731,7 +739,6 @@ func effFlagVar(fe *FnEnc, st *State, callee *ssa.Function, args []RV, pos token
 	return nil
 }
 
-
 // io.MultiWriter(a, b): a new writer w with tee.a(w) = a and tee.b(w) = b (values of the interface arguments)
 func effMultiWriter(fe *FnEnc, st *State, callee *ssa.Function, args []RV, pos token.Pos) []RV {
 	r := fe.newRef(st)
@@ -773,7 +780,6 @@ func effNewDigester(fe *FnEnc, st *State, callee *ssa.Function, args []RV, pos t
 	}
 	return one(mkIface(Term{"typ.digester", sInt}, r))
 }
-
 
 // ---------------------------------------------------------------------
 // paths: path.inside(x, y) "x is below directory y", path.safe(s) "s is a relative path without .. elements"
@@ -889,14 +895,51 @@ func effDirEntryName(fe *FnEnc, st *State, callee *ssa.Function, args []RV, pos 
 	return one(n)
 }
 
-
-// Digester.Digest(): the digest of what was hashed so far; always a well-formed digest of the digester's algorithm
+// Digester.Digest(): the digest of what was hashed so far: a function of the digester and of the ghost counter of
+// write operations (feeds), so two readings with no write in between agree; always a well-formed digest
 func effDigesterDigest(fe *FnEnc, st *State, callee *ssa.Function, args []RV, pos token.Pos) []RV {
 	if fe.dry {
 		return one(Term{"str.empty", sStr})
 	}
-	fe.declFun("digestOK", []string{sStr}, sBool)
-	d := fe.fresh("digester.digest", sStr)
+	d := digestNowTerm(fe, st, ifVal(fe.val(args[0])))
 	fe.emit("(assert (digestOK " + d.S + "))")
+	return one(d)
+}
+
+func digestNowTerm(fe *FnEnc, st *State, dg Term) Term {
+	fe.declFun("digestOK", []string{sStr}, sBool)
+	fe.declFun("digester.digest", []string{sInt, sInt}, sStr)
+	return Term{app("digester.digest", dg, fe.getComp(st, "feeds", sInt)), sStr}
+}
+
+// bumpFeeds: some writer was written to (any Write through an interface, io.Copy): digests read before and after differ
+func bumpFeeds(fe *FnEnc, st *State) {
+	fe.setComp(st, "feeds", sInt, tArith("+", fe.getComp(st, "feeds", sInt), tInt(1)))
+}
+
+// os.Chtimes(path, atime, mtime): sets the modification time (ghost map MT: path -> time)
+func effChtimes(fe *FnEnc, st *State, callee *ssa.Function, args []RV, pos token.Pos) []RV {
+	srt := arrSort(sStr, sInt)
+	h := fe.getComp(st, "MT", srt)
+	if fe.dry {
+		fe.setComp(st, "MT", srt, h)
+		return one(nilIface)
+	}
+	err := fe.fresh("chtimes.err", sIface)
+	fe.emit("(assert (=> (= (i_typ " + err.S + ") 0) (= (i_val " + err.S + ") 0)))")
+	fe.setComp(st, "MT", srt, tIte(tEq(err, nilIface), tStore(h, fe.val(args[0]), fe.val(args[2])), h))
+	return one(err)
+}
+
+// Algorithm.FromBytes(b): a well-formed digest (a function of the algorithm and of the slice value; the content of the
+// bytes is not modelled, so two different slices give unrelated digests)
+func effFromBytes(fe *FnEnc, st *State, callee *ssa.Function, args []RV, pos token.Pos) []RV {
+	if fe.dry {
+		return one(Term{"str.empty", sStr})
+	}
+	fe.declFun("digestOK", []string{sStr}, sBool)
+	d := fe.fresh("frombytes", sStr)
+	fe.emit("(assert (digestOK " + d.S + "))")
+	fe.emit("(assert (not (digestOK str.empty)))")
 	return one(d)
 }
